@@ -28,22 +28,26 @@ claim("C01", "proof",
       "Lean 4 theorems over a hand-written model + differential correspondence + executed abstract specification as oracle", "§4 C01")
 
 claim("C02", "proof",
-      "Theorems: the fast-path eligibility test is exactly the documented domain; per-bound agreement of output_parts with the general "
-      "output rule whenever the start-offset vector and the range vector describe the same fields (all records, all bounds). The scan "
-      "equivalence (memchr loop with early stop vs find_iter) is not yet a theorem; the end-to-end statement is carried by the direct oracle: "
-      "both entry points on the same Opt, in-process, bounded-exhaustive + random.",
-      TIE, "Lean 4 theorems over a hand-written model + differential correspondence + two-implementation oracle", "§4 C02")
+      "Theorem readAndCutFast_eq_readAndCutStr: for every Opt in the fast path's domain (eligibility proved to be exactly the documented one), every bounds "
+      "list built by fromVec with non-zero indexes and EVERY input, the model of the fast lane equals the model of the general path — including the early stop "
+      "(fastScan_earlyStop, earlyStop_sound, lastInteresting_spec), the -s rule and out-of-range reports. Direct oracle: both real entry points on the same "
+      "Opt, in-process, bounded-exhaustive + random.",
+      TIE, "Lean 4 equivalence theorem of two programs (scan refinement + per-bound agreement) + two-implementation oracle", "§4 C02")
+
 claim("C03", "proof",
-      "Theorems: -M eligibility is the documented domain; empty-record and early-stop silence rules of the chunk machine. The field-by-field "
-      "refinement to the per-record specification is not yet a theorem; the statement is carried by the direct oracle (streaming entry point vs "
-      "read_and_cut_str on the same Opt, admissible inputs, exhaustive small inputs × segmentations + random large-field inputs).",
-      TIE, "Lean 4 theorems over a hand-written model + differential correspondence + two-implementation oracle", "§4 C03")
+      "Theorem stream_refines_spec_of_parsed / dispatch_fixedMemory_eq_spec: for every option set -M accepts, every bounds argument the parser accepts, every "
+      "segmentation and every input all of whose records are admissible (each closed range wholly present or wholly absent), the chunk machine equals the "
+      "abstract per-record specification — output and status; with C01 this is the same cut as without -M. Direct oracle: streaming entry point vs "
+      "read_and_cut_str on the same Opt, admissible inputs, exhaustive small inputs × segmentations + random large-field inputs.",
+      TIE, "Lean 4 refinement theorem (induction over fields with a pending-bound invariant, via the canonical untagged run of C04) + two-implementation oracle", "§4 C03")
+
 claim("C04", "proof",
-      "Theorems over the chunk machine (model of cut_bytes_stream over bytes tagged with read boundaries): printing a field in two pieces "
-      "equals printing it at once under NoAdjFillers (the invariant the bounds parser guarantees), nothing but counters crosses a chunk "
-      "boundary; lifted to whole-run chunk independence where proved (see evidence: theorem list). Direct oracle: EVERY segmentation of every "
-      "small input vs the one-segment reader, on the implementation.",
-      TIE, "Lean 4 theorems (invariant / simulation over a tagged-byte machine) + exhaustive segmentation oracle", "§4 C04")
+      "Theorem chunk_independent: for every -M option set whose bounds have no two adjacent literal texts (discharged for everything the parser accepts: "
+      "dispatch_fixedMemory_chunk_independent has no such hypothesis) and EVERY two segmentations of the same bytes, output and status are equal; corollaries for "
+      "all buffer sizes and short reads (52 theorems). A counterexample shows the hypothesis is necessary for hand-built lists. Direct oracle: EVERY "
+      "segmentation of every small input vs the one-segment reader, on the implementation.",
+      TIE, "Lean 4 simulation proof over a tagged-byte machine (flush relation) + exhaustive segmentation oracle", "§4 C04")
+
 claim("C09", "proof",
       "Theorems for all n, all bounds: try_into_range (hence every engine's per-bound output: general, fast, bytes, and the spec's resolve) is "
       "invariant under rewriting any subset of negative indexes -k to n+1-k; -1 is the last part, -n the first. Direct oracle: implementation on "
@@ -51,10 +55,12 @@ claim("C09", "proof",
       TIE + " One known finding (line-at-a-time straddling range with fallback) is listed in KNOWN_FINDINGS.txt.",
       "Lean 4 theorems (omega over Int) lifted through the output loops + metamorphic oracle", "§4 C09")
 claim("C10", "proof",
-      "Theorems for all inputs and options: scratch buffers never influence a record (general path and fast lane), records(A‖B) = records(A) ++ "
-      "records(B) when A ends with EOL, hence run(A‖B) = run(A) then run(B), and = run(A) when A fails — for read_and_cut_str (incl. -c, --json) "
-      "and the fast lane; -M by the oracle only so far. Direct oracle: A, B, A‖B on the implementation, and cut_str with dirty scratch.",
-      TIE, "Lean 4 theorems (induction over records, Run.seq algebra) + metamorphic oracle", "§4 C10")
+      "Theorems for all inputs and options: scratch buffers never influence a record (general path and fast lane); records(A‖B) = records(A) ++ records(B) when A "
+      "ends with EOL; run(A‖B) = run(A) then run(B), and = run(A) when A fails — for read_and_cut_str (incl. -c, --json), the fast lane, and -M under EVERY "
+      "segmentation (cutBytesStream_append; the state after an EOL is the initial one from any state). Direct oracle: A, B, A‖B on the implementation, and cut_str "
+      "with dirty scratch buffers.",
+      TIE, "Lean 4 theorems (induction over records, Run.seq algebra, state-reset lemma) + metamorphic oracle", "§4 C10")
+
 claim("C13", "proof",
       "Theorems, one per engine and per branch (general, fast, bytes, -M, -l line-at-a-time, range expansion, complement): resolvable ⇒ data and "
       "never a fallback; else own fallback verbatim; else generic; else the run fails; unresolvable ⇔ the specification cannot resolve. Direct "
